@@ -5,7 +5,7 @@ _g2l = importlib.util.module_from_spec(_spec); _spec.loader.exec_module(_g2l)
 T = "GeomV.C06."
 CFG = {
     "id": "C06",
-    "lean_modules": ["GeomV.C06.Proofs", "GeomV.C06.TextProofs", "GeomV.C06.CertProofs", "GeomV.C06.DecodeProofs", "GeomV.C06.ValueProofs", "GeomV.C06.UnmarshalProofs", "GeomV.C06.Tie"],
+    "lean_modules": ["GeomV.C06.Proofs", "GeomV.C06.TextProofs", "GeomV.C06.CertProofs", "GeomV.C06.DecodeProofs", "GeomV.C06.ValueProofs", "GeomV.C06.UnmarshalProofs", "GeomV.C06.LitTextProofs", "GeomV.C06.Tie"],
     "pregen": _g2l.pregen,
     "exe": "geomv_c06",
     "go_cmd": "c06",
@@ -18,7 +18,8 @@ CFG = {
                                  "C06_decode_sound", "C06_decode_iff", "C06_decode_unknown_type", "C06_decode_foreign_members", "C06_decode_last_wins",
                                  "C06_text_value", "C06_denotes_unique",
                                  "C06_unmarshal_lit", "C06_decode_lit", "C06_decode_lit_overflow", "C06_decode_lit_skipped",
-                                 "C06_decode_lit_sound", "C06_decode_lit_conservative"]],
+                                 "C06_decode_lit_sound", "C06_decode_lit_conservative",
+                                 "C06_parse_factor", "C06_text_decode_lit", "C06_text_decode_driver"]],
     "trusted_base": [
         "Lean 4.33.0 kernel; axioms of every theorem printed by #print axioms must be within {propext, Classical.choice, Quot.sound}",
         "T1: lean/GeomV/C06/Gen.lean is regenerated from /repo/encoding/geojson/{encode,decode,geojson}.go on every run by "
